@@ -86,9 +86,9 @@ def worker(prop, tier, k, n, outpath, base_seed):
         agg['cases'] += 1
         c = agg['classes'].setdefault(cls, {'cases': 0, 'nontrivial': 0, 'skipped': 0, 'violating': 0})
         c['cases'] += 1
-        if r['status'] == 'timeout':
+        if r['status'] == 'timeout':          # what the monitors recorded before the watchdog fired still counts
             agg['timeouts'].append([cls, idx])
-            continue
+            r['nontrivial'] = False
         if r['skipped']:
             c['skipped'] += 1
             agg['skipped'] += 1
